@@ -91,6 +91,11 @@ CHECKS = {
          'The clause "each name maps to the most recently loaded definition after any sequence of file events" quantifies over runtime histories of a state '
          'machine and is NOT decided by this check (static analysis cannot bound it; model checking would).',
          'Trusted: json.loads shapes; DictProxy dict semantics; os.path.getmtime ordering.'),
+ 'C20': ('taint analysis: typed sources from the engine abstract interpreter (whole objects, .value, crypto results, secret payload fields) + reaching-definition taint elsewhere; sinks = INFO+ log calls and KMIP error messages',
+         'All 110 logging calls of level >= INFO and 172 error-message sites in server, crypto engine, protocol, clients and pie are decided for the '
+         'enumerated secret sources on all paths; default-level configuration is checked. Holds for all request histories because it quantifies over '
+         'the sink sites, not over executions. Third-party exception texts are an assumption.',
+         'Trusted: repr/str of pie objects print values (so whole objects are sources); logging level semantics.'),
 }
 
 NOT_YET = 'check not built yet in this session (rules designed in DESIGN.md section 4); will be claimed once its check exists and is silent on the unchanged tree'
